@@ -78,7 +78,7 @@ class C19(PureCheck):
             "formatting, same display/different run boundaries, empty runs, explicit False) plus every plain str of the pool's "
             "texts and plain strs carrying escape sequences (the value's own terminal string and 6 other spellings of it), values derived from an already rendered styled value by switching the style off, and pieces cut out of an already rendered value (texts spelled like a fragment of their own escape sequence included); all ordered pairs (quick: a sampled pool of 150 -> all pairs) with ==, !=, reversed ==, hash, set and dict "
             "membership recorded together with both terminal strings; repr round trip (eval in a namespace holding only the "
-            "fmtfuncs names) for every layout with >=1 run and texts with quotes/escapes. distinct_nontrivial = distinct pairs "
+            "fmtfuncs names) for every layout with >=1 run, texts with quotes/escapes and run boundaries right before a combining / zero-width character. distinct_nontrivial = distinct pairs "
             "whose texts are equal but run lists differ, or repr cases with >=1 formatted run")
     exhaustive = {"quick": False, "thorough": False}
 
@@ -148,6 +148,13 @@ class C19(PureCheck):
         reprpool = [l for l in L if len(l) >= 1] if tier == "thorough" else [l for l in L if len(l) >= 1][::3]
         for l in reprpool:
             yield {"op": "repr", "f": l}
+        # a run boundary right before a combining / zero-width character, other formatting on each side (a cursor
+        # highlight on the base letter of an accented character): the value is built from its runs, its repr uses +
+        for mark in (769, 8205, 3633):
+            for a1, a2 in ((ATTS[1], ATTS[2]), (fmtlib.PLAIN, ATTS[1]), (ATTS[2], fmtlib.PLAIN), (ATTS[1], ATTS[1])):
+                yield {"op": "repr", "f": [[[99, 101], list(a1)], [[mark, 33], list(a2)]]}
+                yield {"op": "repr", "f": [[[101], list(a1)], [[mark], list(a2)], [[120], list(a1)]]}
+                yield {"op": "repr", "f": [[[mark, 97], list(a1)], [[mark, mark], list(a2)]]}
         for t in REPR_TEXTS:
             for a in ATTS + [[8, 1, 2, 2, 2, 2, 2, 2]]:
                 yield {"op": "repr", "f": [[[ord(c) for c in t], a]]}
